@@ -21,7 +21,7 @@ from fractions import Fraction
 
 import numpy as np
 
-from . import lib
+from . import lib, hist
 from .lib import cbool, cZ, clist, copt, cstr
 
 GEN_DIR = lib.GEN
@@ -922,14 +922,22 @@ def run_ocase(c, Pm):
         else:
             expect_error(res, op + ' of incompatible units')
     elif op == 'set_units':
-        a6 = mk_obj(Pm, cls, ua, shape, 1, derivs=c.get('derivs', False))
+        a6 = mk_obj(Pm, cls, ua, shape, 1, derivs=c.get('derivs', False) or bool(c.get('warm')))
         before = np.array(a6._values_, copy=True)
+        if c.get('warm'):
+            # the derivative-free twin and the other cached views exist before the units change: afterwards they
+            # must show the new units too (seeded change C12-E: set_units kept the cached wod)
+            hist.warm(a6)
         res = guarded(lambda: a6.set_units(ub))
         if can_match_ref(ra, rb):
             if res[0] != 'ok':
                 fails.append('set_units raised %s' % res[1])
             else:
                 check_units(obs_units(a6._units_), rb, 'set_units', fails, strict_none=True)
+                if c.get('warm'):
+                    check_units(obs_units(a6.wod._units_), rb, 'wod after set_units', fails, strict_none=True)
+                    check_units(obs_units(a6.without_derivs()._units_), rb, 'without_derivs() after set_units', fails,
+                                strict_none=True)
         else:
             expect_error(res, 'set_units to another dimension')
             check_units(obs_units(a6._units_), ra, 'units after failed set_units', fails)
@@ -1143,6 +1151,7 @@ def gen_cases(rng, tier, names):
                 for op in ADDITIVE + ['eq', 'ne']:
                     obj_cases.append({'kind': 'O', 'op': op, 'cls': cls, 'ua': ua, 'ub': ub})
                 obj_cases.append({'kind': 'O', 'op': 'set_units', 'cls': cls, 'ua': ua, 'ub': ub})
+                obj_cases.append({'kind': 'O', 'op': 'set_units', 'cls': cls, 'ua': ua, 'ub': ub, 'warm': True})
                 obj_cases.append({'kind': 'O', 'op': 'convert_dunits', 'cls': cls, 'ua': ua, 'ub': ub})
                 obj_cases.append({'kind': 'O', 'op': 'ctor', 'cls': cls, 'ua': ua, 'ub': ub})
                 for op in ('mul', 'rmul', 'imul', 'div', 'idiv'):
